@@ -150,7 +150,7 @@ impl Model {
             wills: BTreeMap::new(),
             notes: vec![],
             check_replies: matches!(p, "C06" | "C14" | "C08" | "C09"),
-            check_forwards: matches!(p, "C01" | "C06" | "C08" | "C09" | "C14" | "C15" | "C16" | "C17" | "C20"),
+            check_forwards: matches!(p, "C01" | "C06" | "C08" | "C09" | "C14" | "C15" | "C16" | "C17" | "C20" | "C12"),
             check_retained: matches!(p, "C15" | "C16" | "C08" | "C20"),
             check_props: p == "C20",
             check_session: p == "C08",
